@@ -366,6 +366,19 @@ def decode_queries(prop, tier, seed):
                 via = ("file", "port", "dict")[(off // 4) % 3] if prop == "C01" else "file"
                 qs.append(Query(f"win[{verb}|{code}|{len(pay) // 2}@{off}+{w}]", lambda c, a=(head, pay, "", off, w, via): D.h_window(c, prop, *a),
                                 {"h": "win", "head": head, "pay": pay, "off": off, "w": w, "via": via}, group=f"win:{code}", max_secs=secs * (3 if mode == "bv" else 1), max_paths=20_000, mode=mode, weight=len(pay) / 100 + (5 if mode == "bv" else 0)))
+    if prop == "C05":
+        # the logged frames themselves, nothing symbolic: the real lru_caches / memoised attributes are all
+        # active here (they are bypassed for symbolic arguments), so order- and cache-dependence shows
+        allb = _bases(4 if thorough else 2)
+        for i in range(0, len(allb), 25):
+            chunk = allb[i : i + 25]
+
+            def conc(c, chunk=chunk):
+                for verb, code, head, pay in chunk:
+                    D.h_window(c, "C05", head, pay, "", 0, 0)
+                return len(chunk)
+
+            qs.append(Query(f"conc[{i // 25}]", conc, {"h": "conc", "frames": [[h, p] for _, _, h, p in chunk]}, group="conc", max_secs=120, weight=1))
     # whole payloads of the shortest admissible lengths
     maxn = 6 if thorough else 4
     adm = _admissible_lengths(48)
